@@ -113,6 +113,9 @@ func vfBuildTree(c vfCell) *vfTree {
 		f.FailChildDead = "X"
 	case "sched":
 		f.OnceFail = 10 * time.Millisecond
+	case "stopfail": // the failing actor is being stopped and panics on its child's death notice while in the killing state
+		mk("X", t.fail)
+		f.FailChildDead = "X"
 	}
 	if c.Hook != "" {
 		parts := strings.Split(c.Hook, "-")
@@ -154,6 +157,16 @@ func vfModel(c vfCell, t *vfTree) vfOutcome {
 	failing := t.fail
 	var final vivid.SupervisionDecision
 	var targets []string
+	if c.Site == "stopfail" {
+		// a failure while an actor is already stopping does not trigger supervision: it just terminates
+		o.final = vivid.SupervisionDecisionStop
+		o.cat[t.fail] = "stopped"
+		for _, dsc := range t.desc(t.fail) {
+			o.cat[dsc] = "stopped"
+		}
+		o.failFate = "killed"
+		return o
+	}
 	for {
 		sup := t.parent[failing]
 		var d vivid.SupervisionDecision
@@ -277,6 +290,8 @@ func vfRunCell(c vfCell, res *vfCellResult) {
 		}
 	case "childdead":
 		w.tellName("X", &vfCmd{Op: "killself", Arg: false})
+	case "stopfail":
+		w.sys.Kill(w.ref(t.fail), false, "vf-stopfail")
 	case "launch", "sched":
 	}
 	// traffic for everybody else, at the same instant
@@ -372,7 +387,9 @@ func vfRunCell(c vfCell, res *vfCellResult) {
 		probeProcessed := count(func(e vfEv) bool { return e.Kind == "recv" && e.Path == p && e.Msg == "U" && e.ID == probeID[n] })
 		probeDL := count(func(e vfEv) bool { return e.Kind == "obs" && e.Msg == "dl:U" && e.ID == probeID[n] })
 		cat := model.cat[n]
-		if n == "X" && c.Site == "childdead" {
+		if n == "X" && c.Site == "stopfail" {
+			cat = "stopped"
+		} else if n == "X" && c.Site == "childdead" {
 			// X was killed explicitly to trigger the failure
 			switch model.cat[t.fail] {
 			case "restarted":
@@ -400,6 +417,9 @@ func vfRunCell(c vfCell, res *vfCellResult) {
 			}
 			if probeProcessed != 1 || probeDL != 0 {
 				add("c09-survivor-does-not-process", key, "%s should be alive and responsive: %s", n, got)
+				if cat == "resumed" {
+					add("c08-resumed-actor-does-not-continue", key, "%s was a target of the chain that ended in Resume: it must continue with its state intact, but it does not process a message sent after quiescence: %s", n, got)
+				}
 			}
 		case "restarted":
 			if nL != 2 || nRestarted != 1 || nKilledEv != 0 || !alive || nDead != 1 {
@@ -574,6 +594,15 @@ func vfEnumerateCells() []vfCell {
 			}
 		}
 	}
+	for _, shape := range []int{2, 3, 4} {
+		for mode := 0; mode < 2; mode++ {
+			for _, s1 := range []int{vfStratOne, vfStratAll} {
+				for _, d1 := range []vivid.SupervisionDecision{vivid.SupervisionDecisionRestart, vivid.SupervisionDecisionStop, vivid.SupervisionDecisionResume, vivid.SupervisionDecisionEscalate} {
+					cells = append(cells, vfCell{Shape: shape, Site: "stopfail", Mode: mode, D1: d1, S1: s1, S2: vfStratAll, D2: vivid.SupervisionDecisionRestart, Burst: 4, FailPos: 1})
+				}
+			}
+		}
+	}
 	return cells
 }
 
@@ -666,7 +695,7 @@ func sigFinal(sig string) string {
 }
 
 func TestVerif_supmatrix(t *testing.T) {
-	R := verifrt.NewReport("supmatrix", "enumerated matrix: 4 tree shapes x 4 failure sites (user message, OnLaunch, child OnKilled, scheduled message) x {panic, Failed} x {one-for-one, one-for-all} x 6 decisions, every Escalate cell expanded by level-2 {system default, 2 strategies x 6 decisions} and level-3 {system default, 3 decisions}; each cell runs the real system in a synctest bubble (quiescence oracle) and is compared with an executable reference model of per-actor outcomes; traffic to every actor at the failure instant and probes after quiescence. non-trivial+distinct = distinct (cell, predicted outcome vector)")
+	R := verifrt.NewReport("supmatrix", "enumerated matrix: 4 tree shapes x 4 failure sites (user message, OnLaunch, child OnKilled, scheduled message; plus 'fails on a child's death notice while itself being stopped', which must not trigger supervision) x {panic, Failed} x {one-for-one, one-for-all} x 6 decisions, every Escalate cell expanded by level-2 {system default, 2 strategies x 6 decisions} and level-3 {system default, 3 decisions}; each cell runs the real system in a synctest bubble (quiescence oracle) and is compared with an executable reference model of per-actor outcomes; traffic to every actor at the failure instant and probes after quiescence. non-trivial+distinct = distinct (cell, predicted outcome vector)")
 	defer R.Flush()
 	cells := vfEnumerateCells()
 	R.ObsMax("max:cells_enumerated", int64(len(cells)))
